@@ -532,6 +532,7 @@ size_t g_cb_tracked, g_cb_total; bool g_cb_tracked_answer;
 bool nondet_bool(void);
 bool CALLBACK(LMf* self, Elem* l) __CPROVER_requires(g_locked) /*@ C17 "the registry is walked under its lock" */
 __CPROVER_assigns(g_cb_tracked, g_cb_total) __CPROVER_ensures(g_cb_total == OLD(g_cb_total) + 1 && (l == self->_loggers.tracked ? (g_cb_tracked == OLD(g_cb_tracked) + 1 && RET == g_cb_tracked_answer) : g_cb_tracked == OLD(g_cb_tracked)));
+static inline bool ELEM_is_valid_logger(Elem* l) { return l->flag; }      /* not used by the pinned source: present so that a walk that skips removed loggers is decided (seed C06-G2) */
 #define T_(s) ((s)->_loggers.tracked)
 '''
 lm_for_each = dict(
@@ -539,7 +540,7 @@ lm_for_each = dict(
     desc='LoggerManager::for_each_logger: under the lock, every registered logger - valid or already removed - is handed to the callback at most once, in order, until the callback answers true',
     structs=[], prelude=FE_PRELUDE2, enforce='LM_for_each_logger', replace=['LOCK_GUARD', 'CALLBACK'], loopcontracts=True,
     funcs=[dict(src=dict(header=LMH, cls='LoggerManager', name='for_each_logger'), src_params=['cb'], cfun='LM_for_each_logger', sig='void LM_for_each_logger(LMf* self)', cls_c='LM', member_fields=['_loggers', '_spinlock'],
-                range_for=[(r'_loggers', 'EVec_size', 'EVec_get', 'Elem*')],
+                range_for=[(r'_loggers', 'EVec_size', 'EVec_get', 'Elem*')], methods={'is_valid_logger': 'ELEM_is_valid_logger'},
                 pre_rules=[(r'LockGuard\s+const\s+lock\s*\{\s*_spinlock\s*\}\s*;', 'LOCK_GUARD(&_spinlock);'), (r'cb\(elem\.get\(\)\)', 'CALLBACK(self, elem)')],
                 loops={0: r'''
 __CPROVER_assigns(__i0, g_cb_tracked, g_cb_total)
